@@ -142,15 +142,19 @@ COSTLY = ["old.sixframes", "app.translate_frames"]
 def gen_frames(tier, seed):
     rnd = random.Random(seed)
     thorough = tier == "thorough"
-    hi_all = 6 if thorough else 5
+    hi_all = 6 if thorough else 4
     for gid in CODE_IDS:
         for s in all_seqs(0, hi_all):
             for e in CHEAP:
                 yield [e, gid, s]
-    for gid in (CODE_IDS if thorough else [1, 2, 11]):     # one length further
+    for gid in (CODE_IDS if thorough else [1, 2, 11, 22]):     # one length further
         for s in all_seqs(hi_all + 1, hi_all + 1):
             for e in CHEAP:
                 yield [e, gid, s]
+    if not thorough:
+        for s in all_seqs(6, 6):
+            for e in CHEAP:
+                yield [e, 1, s]
     # the entry points that need sequence objects (2 ms each)
     for s in all_seqs(0, 6 if thorough else 4):
         for e in COSTLY:
@@ -271,7 +275,7 @@ def in_frame_gaps(s):
     return "-" not in s[len(body):]
 
 
-def seq_class(s, gid):
+def seq_class(s, gid, flags=True):
     cod = S.translate_spec(s, gid)
     nong = [i for i, a in enumerate(cod) if a != "-"]
     tags = []
@@ -281,23 +285,38 @@ def seq_class(s, gid):
         tags.append("shorter-than-a-codon")
     else:
         last = nong[-1]
-        internal = any(cod[i] == "*" for i in nong[:-1])
+        internal = [i for i in nong[:-1] if cod[i] == "*"]
         term = cod[last] == "*"
         if term and len(nong) == 1:
             tags.append("only-a-stop-codon")
         elif term and internal:
-            tags.append("internal+terminal-stop")
+            run = len(nong) - 1
+            while run > 0 and cod[nong[run - 1]] == "*":
+                run -= 1
+            tags.append("trailing-run-of-stops" if all(nong.index(i) >= run for i in internal) else "internal+terminal-stop")
         elif term:
             tags.append("terminal-stop")
         elif internal:
             tags.append("internal-stop")
         else:
             tags.append("no-stop")
-    if len(s) % 3:
+    if flags and len(s) % 3:
         tags.append("len%3!=0")
-    if "-" in s:
+    if flags and "-" in s:
         tags.append("gapped")
     return "+".join(tags)
+
+
+def witness_class(named, gid, exc_name=None, exc_text=""):
+    """coarse, stable class of a (multi-)sequence witness for failure keys"""
+    cls = [seq_class(s, gid, flags=False) for _, s in named]
+    if exc_name == "InvalidCodonError":
+        for c in ("no-bases", "only-a-stop-codon", "shorter-than-a-codon"):
+            if c in cls:
+                return "sequence-" + c if c == "no-bases" else c
+    if exc_name and "unresolvable codon" in exc_text and "U" in exc_text.split("unresolvable codon")[1][:8]:
+        return "codon-with-U-unresolvable"
+    return "|".join(sorted(set(cls)))
 
 
 def outcome(s, gid, ok, stop, trim):
@@ -368,19 +387,21 @@ def run_translation(entry, named, gid, ok, stop, trim, mt="dna", view=None):
 def judge(pre, got, named, gid, ok, stop, trim, aligned, ctx):
     """compare one run with the per-sequence outcome sets; `named` holds the DISPLAYED nucleotide strings"""
     outs = [outcome(s, gid, ok, stop, trim) for _, s in named]
-    sc = "|".join(sorted({seq_class(s, gid) for _, s in named}))
     oc = f"include_stop={int(stop)},trim_stop={int(trim)}"
     must_reject = [o[2] for o in outs if o[2]]
     may_raise = any(o[1] for o in outs)
     if got[0] == "exc":
         if may_raise:
             return ("ok", bool(must_reject))
-        return ("fail", f"{pre}/{oc}/raises-{got[1]}/{sc}", f"{ctx}: {got[2]}; spec allows only values {[sorted(o[0]) for o in outs]}")
+        wc = witness_class(named, gid, got[1], got[2])
+        mid = "" if wc in ("sequence-no-bases", "only-a-stop-codon", "codon-with-U-unresolvable") else f"{oc}/"
+        return ("fail", f"{pre}/raises-{got[1]}/{mid}{wc}", f"{ctx}: {got[2]}; spec allows only values {[sorted(o[0]) for o in outs]}")
     _, names, d, label = got
     if names != [n for n, _ in named] or sorted(d) != sorted(names):
         return ("fail", f"{pre}/names-or-order-changed", f"{ctx}: result names {names} / {sorted(d)}")
     if must_reject:
         shown = "stop-in-output" if any("*" in v for v in d.values()) else "stop-silently-removed"
+        sc = "|".join(sorted({seq_class(s, gid, flags=False) for (_, s), o in zip(named, outs) if o[2]}))
         return ("fail", f"{pre}/{oc}/accepted-but-must-reject({'+'.join(sorted(set(must_reject)))})/{shown}/{sc}",
                 f"{ctx}: returned {d}; the request neither trims nor allows this stop codon, so it must be rejected")
     for (n, s), o in zip(named, outs):
@@ -392,9 +413,9 @@ def judge(pre, got, named, gid, ok, stop, trim, aligned, ctx):
                 cls = "length"
             else:
                 cls = "codon-mismatch"
-            return ("fail", f"{pre}/{oc}/wrong-value({cls})/{sc}", f"{ctx}: row {n} = {d[n]!r}, spec allows {sorted(o[0])} for {s!r}")
+            return ("fail", f"{pre}/{oc}/wrong-value({cls})/{seq_class(s, gid)}", f"{ctx}: row {n} = {d[n]!r}, spec allows {sorted(o[0])} for {s!r}")
     if aligned and len({len(v) for v in d.values()}) > 1:
-        return ("fail", f"{pre}/{oc}/ragged-alignment/{sc}", f"{ctx}: {d}")
+        return ("fail", f"{pre}/{oc}/ragged-alignment", f"{ctx}: {d}")
     if not str(label).startswith("protein"):
         return ("fail", f"{pre}/result-moltype", f"{ctx}: result moltype {label!r}")
     if any("*" in v for v in d.values()) and label != "protein_with_stop":
@@ -414,7 +435,10 @@ def gen_translation(tier, seed):
     rnd = random.Random(seed)
     thorough = tier == "thorough"
     # (1) code 1, every entry point, every option triple, single sequence
-    base = list(all_seqs(0, 6 if thorough else 4)) + list(k_seqs((2,), TAILS)) + (list(k_seqs((3,))) if thorough else [])
+    if thorough:
+        base = list(all_seqs(0, 6)) + list(k_seqs((2,), TAILS)) + list(k_seqs((3,)))
+    else:
+        base = list(all_seqs(0, 3)) + list(k_seqs((1,), TAILS)) + list(k_seqs((2,), ("", "CA")))
     for s in base:
         for e in ENTRIES:
             for o in OPTS:
@@ -423,7 +447,7 @@ def gen_translation(tier, seed):
     for gid in CODE_IDS:
         if gid == 1:
             continue
-        for s in k_seqs((1, 2), TAILS if thorough else ("",)):
+        for s in k_seqs((1, 2) if thorough else (1,), TAILS if thorough else ("",)):
             for e in SEQ_ENTRIES:
                 for o in OPTS:
                     yield [e, gid, "dna", [["s1", s]], o, None]
@@ -431,6 +455,11 @@ def gen_translation(tier, seed):
             for e in COLL_ENTRIES:
                 for o in OPTS:
                     yield [e, gid, "dna", [["s1", s]], o, None]
+        if not thorough:
+            for s in k_seqs((2,)):
+                for e in SEQ_ENTRIES:
+                    for o in ([False, False, True], [True, True, False]):
+                        yield [e, gid, "dna", [["s1", s]], o, None]
     # (3) strand / frame views of a sequence object: rc() and [f:]
     for s in all_seqs(3, 5 if thorough else 4):
         for e in SEQ_ENTRIES:
@@ -442,7 +471,7 @@ def gen_translation(tier, seed):
             for o in ([[False, False, True], [True, True, True], [False, False, False]]):
                 yield [e, 2, "dna", [["s1", S.rc_spec(s)]], o, ["-", 0]]
     # (4) RNA
-    for s in list(all_seqs(3, 3, "ACGU")) + [x.replace("T", "U") for x in k_seqs((2,), TAILS)]:
+    for s in list(all_seqs(3, 3, "ACGU")) + [x.replace("T", "U") for x in k_seqs((2,), TAILS if thorough else ("",))]:
         for e in ENTRIES:
             for o in (OPTS if thorough else [[False, False, True], [True, True, False]]):
                 yield [e, 1, "rna", [["s1", s]], o, None]
@@ -503,7 +532,7 @@ def contract_translation(case):
 def gen_agree(tier, seed):
     rnd = random.Random(seed)
     thorough = tier == "thorough"
-    base = list(all_seqs(0, 5 if thorough else 3)) + list(k_seqs((1, 2), TAILS)) + GAPPED
+    base = list(all_seqs(0, 5 if thorough else 2)) + list(k_seqs((1, 2), TAILS if thorough else ("",))) + GAPPED
     for s in base:
         for o in OPTS:
             yield [1, [["s1", s]], o]
@@ -511,7 +540,7 @@ def gen_agree(tier, seed):
         if gid == 1:
             continue
         for s in k_seqs((1, 2) if thorough else (1,)):
-            for o in OPTS:
+            for o in OPTS[4:]:
                 yield [gid, [["s1", s]], o]
     for gid in (1, 2):
         for seqs in MULTI:
@@ -597,7 +626,7 @@ def contract_trim(case):
     if not all(in_frame_gaps(s) for _, s in named):
         return ("skip",)
     kind = entry.split(".")[1]
-    sc = "|".join(sorted({seq_class(s, gid) for _, s in named}))
+    sc = witness_class(named, gid)
     pre = f"trim/{entry}"
     specs = [trim_spec(s, gid) for _, s in named]
     strict_hit = strict and any(len(s.replace("-", "")) % 3 for _, s in named)
@@ -608,7 +637,8 @@ def contract_trim(case):
     except Exception as e:
         if strict_hit:
             return ("ok", False)
-        return ("fail", f"{pre}/has_terminal_stop/raises-{type(e).__name__}/{sc}", f"{case}: {_exc(e)}; spec {want_has}")
+        return ("fail", f"{pre}/has_terminal_stop/raises-{type(e).__name__}/{witness_class(named, gid, type(e).__name__, str(e))}",
+                f"{case}: {_exc(e)}; spec {want_has}")
     if bool(has) != want_has and not strict_hit:
         return ("fail", f"{pre}/has_terminal_stop/wrong-answer/{sc}", f"{case}: has_terminal_stop = {has!r}, spec {want_has}")
     try:
@@ -621,15 +651,15 @@ def contract_trim(case):
     except Exception as e:
         if strict_hit:
             return ("ok", False)
-        return ("fail", f"{pre}/trim/raises-{type(e).__name__}/{sc}", f"{case}: {_exc(e)}")
+        return ("fail", f"{pre}/trim/raises-{type(e).__name__}/{witness_class(named, gid, type(e).__name__, str(e))}", f"{case}: {_exc(e)}")
     if names != [n for n, _ in named]:
         return ("fail", f"{pre}/trim/names-or-order-changed", f"{case}: {names}")
     for (n, s), (h, allowed) in zip(named, specs):
         if d.get(n) not in allowed:
             cls = "stop-left" if d.get(n) == s else ("other-sequence-edited" if not h else "wrong-edit")
-            return ("fail", f"{pre}/trim/{cls}/{sc}", f"{case}: row {n} = {d.get(n)!r}, spec allows {sorted(allowed)}")
+            return ("fail", f"{pre}/trim/{cls}/{seq_class(s, gid)}", f"{case}: row {n} = {d.get(n)!r}, spec allows {sorted(allowed)}")
     if kind in ("aln", "arr") and len({len(v) for v in d.values()}) > 1:
-        return ("fail", f"{pre}/trim/ragged-alignment/{sc}", f"{case}: {d}")
+        return ("fail", f"{pre}/trim/ragged-alignment", f"{case}: {d}")
     if label != "dna":
         return ("fail", f"{pre}/trim/moltype", f"{case}: {label}")
     return ("ok", want_has)
@@ -684,7 +714,6 @@ def contract_app(case):
     if not all(in_frame_gaps(s) for _, s in named):
         return ("skip",)
     data = {n: s for n, s in named}
-    sc = "|".join(sorted({seq_class(s, gid) for _, s in named}))
     if app_name == "translate_seqs":
         pre = f"app/translate_seqs/{opt['kind']}"
         try:
@@ -693,7 +722,8 @@ def contract_app(case):
         except Exception as e:
             return ("fail", f"{pre}/app-raises-{type(e).__name__}", f"{case}: {_exc(e)}")
         if isinstance(res, NotCompleted):
-            got = ("exc", "NotCompleted", str(res.message)[-200:])
+            last = str(res.message).strip().splitlines()[-1] if str(res.message).strip() else ""
+            got = ("exc", last.split(":")[0].split(".")[-1] or "NotCompleted", last[:200])
         else:
             got = ("val", list(res.names), {k: str(v) for k, v in res.to_dict().items()},
                    getattr(res.moltype, "label", ""))
@@ -707,10 +737,13 @@ def contract_app(case):
         res = app(coll)
     except Exception as e:
         return ("fail", f"{pre}/app-raises-{type(e).__name__}", f"{case}: {_exc(e)}")
+    err = None
     if isinstance(res, NotCompleted):
-        if str(res.type) not in ("FALSE", "NotCompletedType.FALSE") and "FALSE" not in str(res.type):
-            return ("fail", f"{pre}/NotCompleted-{res.type}/{sc}", f"{case}: {str(res.message)[-300:]}")
+        # every sequence rejected; when the app died instead (type ERROR) remember which exception it was
         out = {}
+        if "FALSE" not in str(res.type):
+            last = str(res.message).strip().splitlines()[-1] if str(res.message).strip() else ""
+            err = last.split(":")[0].split(".")[-1] or "unknown"
     else:
         out = {k: str(v) for k, v in res.to_dict().items()}
         if [n for n in res.names] != [n for n, _ in named if n in out]:
@@ -742,11 +775,16 @@ def contract_app(case):
                     cls = "terminal-stop-not-trimmed" if trim else "selected-frame-has-stop"
                 else:
                     cls = "not-a-reading-frame-of-the-input"
-                return ("fail", f"{pre}/{cls}/{sc}", f"{case}: {n} -> {r!r}; stop-free frames of {d!r}: {good}")
+                return ("fail", f"{pre}/{cls}/{seq_class(d, gid, flags=False)}", f"{case}: {n} -> {r!r}; stop-free frames of {d!r}: {good}")
         else:
             if good and len(d) >= 3 + (frame - 1 if frame else 2):
-                return ("fail", f"{pre}/translatable-sequence-dropped/{sc}",
-                        f"{case}: {n} ({d!r}) dropped although frames {good} have no internal stop; got {out}")
+                why = "no-error"
+                if err:
+                    empty = any(len(_frame_cut(x.replace("-", ""), f)) == 0 for _, x in named for f in frames)
+                    why = f"app-died-{err}" + ("(some-input-has-an-empty-reading-frame)" if empty else "")
+                return ("fail", f"{pre}/translatable-sequence-dropped/{why}",
+                        f"{case}: {n} ({d!r}) dropped although frames {good} have no internal stop; got {out} "
+                        f"{'NotCompleted ' + str(res.type) if isinstance(res, NotCompleted) else ''}")
     return ("ok", nontrivial)
 
 
